@@ -1030,3 +1030,75 @@ func isIdentText(s string) bool {
 	}
 	return true
 }
+
+// optimizerUnwraps (C09-i / C14-f): what optimizeRule may put in the place of the expression it is given. Replacing a
+// node by one of its operands preserves the language only for the two list kinds when the list has exactly one
+// element (a choice of one alternative, a sequence of one item): every other kind does something of its own around
+// its operand (repeats it, negates it, binds a label, runs a block, installs or leaves a recovery handler). The rule
+// reads the normalised paths of optimizeRule: each returns (a) the expression it was given, (b) a clone made by
+// cloneExpr (the inlining of a reference; its guard is C09-f(4)), (c) element 0 of a []Expression field of the given
+// expression under the fact that this list has length 1, or (d) optimizeRule of one of these.
+func optimizerUnwraps(c *Ctx, g *load.G, rule string) {
+	r := c.R
+	ap := g.Pkg("ast")
+	fd := load.FuncDecl(ap, "grammarOptimizer", "optimizeRule")
+	if fd == nil {
+		r.Fatal("anchor grammarOptimizer.optimizeRule not found")
+		return
+	}
+	recv, x := recvName(fd), firstParam(fd)
+	// list fields of the expression kinds
+	listFields := map[string]bool{}
+	for _, name := range ap.Types.Scope().Names() {
+		tn, ok := ap.Types.Scope().Lookup(name).(*types.TypeName)
+		if !ok {
+			continue
+		}
+		st, ok := tn.Type().Underlying().(*types.Struct)
+		if !ok {
+			continue
+		}
+		for i := 0; i < st.NumFields(); i++ {
+			if sl, ok := st.Field(i).Type().(*types.Slice); ok && types.TypeString(sl.Elem(), func(*types.Package) string { return "" }) == "Expression" {
+				listFields[st.Field(i).Name()] = true
+			}
+		}
+	}
+	paths := c.astNorm().normPaths(fd)
+	n := 0
+	var bad []string
+	for _, p := range paths {
+		for i, e := range p {
+			if e.Kind != "return" {
+				continue
+			}
+			n++
+			t := stripAsserts(e.Text)
+			for strings.HasPrefix(t, recv+".optimizeRule(") && strings.HasSuffix(t, ")") {
+				t = strings.TrimSuffix(strings.TrimPrefix(t, recv+".optimizeRule("), ")")
+			}
+			switch {
+			case t == x:
+			case strings.HasPrefix(t, "cloneExpr("):
+			case strings.HasPrefix(t, x+".") && strings.HasSuffix(t, "[0]") && listFields[strings.TrimSuffix(strings.TrimPrefix(t, x+"."), "[0]")]:
+				list := strings.TrimSuffix(t, "[0]")
+				single := false
+				for _, f := range p[:i].facts() {
+					for _, cj := range splitTop(f, "&&") {
+						if stripAsserts(cj) == "len("+list+")==1" {
+							single = true
+						}
+					}
+				}
+				if !single {
+					bad = append(bad, fmt.Sprintf("a path returns %s without the fact len(%s)==1 (facts: %s): the other elements of the list are dropped", t, list, abbreviate(strings.Join(p[:i].facts(), " "))))
+				}
+			default:
+				bad = append(bad, fmt.Sprintf("a path returns %s in the place of %s (facts: %s): only a choice or sequence with a single element means the same as that element - an operand of any other kind (the handler of a recovery operator, the operand of a predicate, repetition, label or action) does not mean what the node means", e.Text, x, abbreviate(strings.Join(p[:i].facts(), " "))))
+			}
+		}
+	}
+	r.Analysed["optimizeRule_returns"] = n
+	r.Check(len(bad) == 0 && n >= 4, rule, "G.ast.optimizeRule:replaces-a-node-only-by-its-single-element-or-a-clone", "", g.Where(fd.Pos()),
+		fmt.Sprintf("%d returning paths: the expression itself, a clone of the referenced rule, or the only element of a list", n), strings.Join(uniq(bad), "; "))
+}
